@@ -11,6 +11,8 @@ pub broadcast axiom fn ax_distr(a: Scalar, b: Scalar, c: Scalar) ensures #[trigg
 pub broadcast axiom fn ax_inv(a: Scalar) requires a != Scalar::ZERO ensures #[trigger] s_mul(a, s_inv(a)) == Scalar::ONE;
 pub broadcast axiom fn ax_pow_zero(a: Scalar) ensures #[trigger] s_pow(a, 0) == Scalar::ONE;
 pub broadcast axiom fn ax_pow_succ(a: Scalar, n: nat) ensures #[trigger] s_pow(a, n + 1) == s_mul(a, s_pow(a, n));
+// the integers embed into the field: 1 + 1 is the image of 2 (dalek: Scalar::from(2u8) == Scalar::ONE + Scalar::ONE)
+pub axiom fn ax_one_plus_one() ensures s_add(Scalar::ONE, Scalar::ONE) == s_of_nat(2);
 pub broadcast group group_ring {
     ax_add_comm, ax_add_assoc, ax_add_zero, ax_add_neg, ax_sub_def, ax_mul_comm, ax_mul_assoc, ax_mul_one, ax_distr,
 }
